@@ -110,21 +110,24 @@ Definition left_over (s' : Prog.st) : Prop :=
 Let Hgr0 : cand e F (fun _ => true) (gr0 F).
 Proof. split; [apply (co_base e F Hpe), Hgrco|intros a _; reflexivity]. Qed.
 
-Lemma id_in_all_spec fuel (Q : list bool * nat * nat -> Prog.st -> Prop) s :
-  cls s = [] -> sess_bounded s ->
-  (forall r s', in_all_post r -> left_over s' -> Q r s') ->
-  wpI (id_in_all oracle thr fuel e F (length g0)) Q s.
+Lemma id_in_all_spec fuel (FS : Prop) (QA QF : Prog.st -> Prop)
+      (Q : list bool * nat * nat -> Prog.st -> Prop) s :
+  cls s = [] -> sess_bounded s -> (pr_bound e F <= fuel \/ FS) ->
+  (forall s', calls s' <= calls s + pr_bound e F -> QA s') ->
+  (forall s', calls s' <= calls s + pr_bound e F -> FS -> QF s') ->
+  (forall r s', in_all_post r -> left_over s' -> calls s' <= calls s + pr_bound e F -> Q r s') ->
+  wp QA (fun _ => False) QF (id_in_all oracle thr fuel e F (length g0)) Q s.
 Proof.
-  intros Hc Hsb HQ. unfold id_in_all. cbv zeta. rewrite (compact_length F n HF).
-  apply (wp_conseq _ (QAb (calls s) (pr_bound e F)) QPb (QFb (calls s) (pr_bound e F) True));
-    [auto|intros s' []|auto|].
+  intros Hc Hsb Hfuel HQA HQF HQ. unfold id_in_all. cbv zeta. rewrite (compact_length F n HF).
+  apply (wp_conseq _ (QAb (calls s) (pr_bound e F)) QPb (QFb (calls s) (pr_bound e F) FS));
+    [exact HQA|intros s' []|intros s' [H1 H2]; now apply HQF|].
   apply (setup_spec thr Hthr e F n HF Hpe); [exact Hc|exact Hsb|].
   intros C selv s2 HC Hc2 Hcalls2 Hsb2 Hfs. pose proof Hfs as (Hfresh & Hselpos & Hargs).
   apply (id_enum_loop_spec oracle Hvalid e F n HF C selv
            (fun v Hv => all_sound e thr F n Hthr HF C v HC Hv)
            (fun S HS => all_complete e thr F n Hthr HF C S HC HS) Hfresh Hselpos Hargs
            (pr_base_adm e F Hpe) (pr_pr_base e F n HF Hpe) FPref (fun _ => true) (fl_ok_pref e n)
-           Hgr0 Hgrnd (calls s) (pr_bound e F) True (pr_HBnd e F n HF Hpe) eq_refl (length g0)
+           Hgr0 Hgrnd (calls s) (pr_bound e F) FS (pr_HBnd e F n HF Hpe) eq_refl (length g0)
            fuel _ s2 {| gBs := []; gSs := []; gPs := [] |} [] (repeat true n) 0 0).
   - apply kinv_init; [exact Hc2|exact Hsb2|lia].
   - left. reflexivity.
@@ -134,8 +137,11 @@ Proof.
     + intros a Ha. rewrite (nth_bool_repeat_true n a Ha). split; [intros _ Q0 []|reflexivity].
     + intros Q0 [].
     + intros H. now destruct H.
-  - now right.
-  - intros k' s' g' found' r Hi Hpost. apply HQ; [exact (enum_post_in_all found' r Hpost)|].
+  - cbn [kk c_state]. unfold pot. cbn. destruct Hfuel as [H|H]; [left; lia|now right].
+  - intros k' s' g' found' r Hi Hpost.
+    destruct (pot_le e F n C selv Hselpos FPref (fun _ => true) (calls s) (pr_bound e F)
+                (pr_HBnd e F n HF Hpe) _ _ _ _ Hi) as (_ & _ & Hcl).
+    apply HQ; [exact (enum_post_in_all found' r Hpost)| |exact Hcl].
     destruct Hi as (_ & _ & Hsb' & Hc' & _).
     exists C, selv, (gBs g'). split; [exact HC|]. split; [exact Hfs|]. split.
     + now rewrite cls_add, Hc'.
@@ -194,21 +200,29 @@ Proof.
     specialize (H a ltac:(lia) Hv). unfold alw in H. rewrite H in Ha2. discriminate.
 Qed.
 
+Definition ideal_bound : nat := length (all_base (enc_base e) F) + 2.
+
 Lemma ideal_HBnd : forall Ss Ps : list (list nat),
   (forall S, In S Ss -> base S) -> sepl Ss -> (forall P, In P Ps -> maxc e F alw P) -> sepl Ps ->
-  length Ss + length Ps + 1 <= 2 * length (all_base (enc_base e) F) + 1.
+  length Ss + length Ps + 1 <= ideal_bound.
 Proof.
-  intros Ss Ps HSs HsS HPs HsP.
+  intros Ss Ps HSs HsS HPs HsP. unfold ideal_bound.
   pose proof (sepl_base_le (enc_base e) F Ss HSs HsS).
-  assert (length Ps <= length (all_base (enc_base e) F)); [|lia].
-  apply sepl_base_le; [|exact HsP]. intros P HP. exact (maxc_base e F alw P (HPs P HP)).
+  assert (length Ps <= 1); [|lia].
+  destruct Ps as [|P1 [|P2 Ps]]; cbn [length]; try lia. exfalso.
+  destruct HsP as [Hne _]. apply (Hne P2); [now left|].
+  apply (idl_unique F P1 P2 Hwf); apply maxc_ideal, HPs; [now left|right; now left].
 Qed.
 
-Lemma id_maximal_allowed_spec fuel s :
-  left_over s ->
-  wpI (id_maximal_allowed oracle fuel e F in_all) (fun l _ => idl F l /\ NoDup l) s.
+Lemma id_maximal_allowed_spec fuel (FS : Prop) (QA QF : Prog.st -> Prop)
+      (Q : list nat -> Prog.st -> Prop) s :
+  left_over s -> (ideal_bound <= fuel \/ FS) ->
+  (forall s', calls s' <= calls s + ideal_bound -> QA s') ->
+  (forall s', calls s' <= calls s + ideal_bound -> FS -> QF s') ->
+  (forall l s', idl F l -> NoDup l -> calls s' <= calls s + ideal_bound -> Q l s') ->
+  wp QA (fun _ => False) QF (id_maximal_allowed oracle fuel e F in_all) Q s.
 Proof.
-  intros (C & selv & Bs & HC & (Hfresh & Hselpos & Hargs) & Hcls & Hsb).
+  intros (C & selv & Bs & HC & (Hfresh & Hselpos & Hargs) & Hcls & Hsb) Hfuel HQA HQF HQ.
   unfold id_maximal_allowed, new_cc_computer, new_computer.
   rewrite (compact_length F n HF), wp_bind, wp_bind, wp_n_vars, wp_ret.
   set (nv := session_n_vars (sess s)). set (C0 := cls s).
@@ -234,40 +248,63 @@ Proof.
     assert (In a A).
     { apply Hcore. split; [exact (co_incl F _ Hgrco a Ha)|]. intros P HP. now apply (g0_below P). }
     now apply (in_id_single in_all a Hlen) in H. }
-  apply (wp_conseq _ (QAb (calls s) (2 * length (all_base (enc_base e) F) + 1)) QPb
-                     (QFb (calls s) (2 * length (all_base (enc_base e) F) + 1) True));
-    [auto|intros s' []|auto|].
+  assert (Hsp : 0 < 1 + nv) by lia.
+  apply (wp_conseq _ (QAb (calls s) ideal_bound) QPb (QFb (calls s) ideal_bound FS));
+    [exact HQA|intros s' []|intros s' [H1 H2]; now apply HQF|].
   apply (compute_maximal_spec oracle Hvalid e F n HF C0 (1 + nv) Hs0 Hc0
-           ltac:(replace (1 + nv - 1) with nv by lia; exact Hb0) ltac:(lia)
+           ltac:(replace (1 + nv - 1) with nv by lia; exact Hb0) Hsp
            ltac:(intros a Ha; specialize (Hargs a Ha); lia)
            (pr_base_adm e F Hpe) (FIdeal (id_forbidden e in_all)) alw fl_ok_ideal Hg Hgrnd
-           (calls s) _ True ideal_HBnd (fun _ => False) fuel _ (st_nvars s)
+           (calls s) ideal_bound FS ideal_HBnd (fun _ => False) fuel _ (st_nvars s)
            {| gBs := []; gSs := []; gPs := [] |}).
   - apply kinv_init; [reflexivity|now apply sb_nvars|cbn; lia].
   - left. reflexivity.
-  - now right.
+  - cbn [kk c_state]. unfold pot. cbn. destruct Hfuel as [H|H]; [left; lia|now right].
   - intros k' s' g' Hi Est. destruct (kinv_max _ _ _ _ _ _ _ _ _ _ _ _ Hi Est) as [Hmax Hnd].
-    split; [now apply maxc_ideal|exact Hnd].
+    destruct (pot_le e F n C0 (1 + nv) Hsp (FIdeal (id_forbidden e in_all)) alw (calls s) ideal_bound
+                ideal_HBnd _ _ _ _ Hi) as (_ & _ & Hcl).
+    apply HQ; [now apply maxc_ideal|exact Hnd|exact Hcl].
 Qed.
 
 End Core.
 
 (* ---------- T4: the ideal extension of the component ---------- *)
-Theorem id_ext_for_cc_correct fuel :
+Definition id_bound : nat := pr_bound e F + (length (all_base (enc_base e) F) + 2).
+
+Lemma id_single_NoDup in_all : NoDup (id_single in_all).
+Proof. unfold id_single. apply NoDup_filter, seq_NoDup. Qed.
+
+(* completed runs return the ideal extension; no run panics; every run makes at most [id_bound]
+   SAT calls; fuel runs out only when fewer than [id_bound] units were given *)
+Theorem id_ext_for_cc_full fuel s :
+  outcome_ok (id_ext_for_cc oracle thr fuel e F s) (calls s) id_bound fuel
+             (fun l => idl F l /\ NoDup l).
+Proof.
+  apply wp_outcome. unfold id_ext_for_cc. cbv zeta. rewrite wp_bind, wp_new_solver, wp_bind.
+  change (calls s) with (calls (st_new s)).
+  apply (id_in_all_spec fuel (fuel < id_bound)); [apply cls_new|apply sb_new|unfold id_bound; lia| | |].
+  - intros s' H. unfold QAb, id_bound. lia.
+  - intros s' H HFS. unfold QFb, id_bound. split; [lia|exact HFS].
+  - intros [[in_all n_in_all] n_pref] s' (Hlen & Hcore & Hcnt & Hone) Hleft Hcl. cbn [fst snd] in *.
+    destruct (Nat.eqb n_in_all (length g0)) eqn:E1.
+    + apply Nat.eqb_eq in E1. rewrite wp_ret. split; [|unfold id_bound; lia].
+      split; [|exact Hgrnd]. apply (ideal_is_grounded in_all Hcore). congruence.
+    + apply Nat.eqb_neq in E1. destruct (Nat.eqb n_pref 1) eqn:E2.
+      * apply Nat.eqb_eq in E2. rewrite wp_ret. destruct (Hone E2 E1) as [Q [HQ HE]].
+        split; [|unfold id_bound; lia]. split; [|apply id_single_NoDup].
+        exact (ideal_is_single in_all Hcore Q HQ HE).
+      * apply (id_maximal_allowed_spec in_all Hlen Hcore fuel (fuel < id_bound)); [exact Hleft| | | |].
+        -- unfold id_bound, ideal_bound. lia.
+        -- intros s2 H. unfold QAb, id_bound, ideal_bound in *. lia.
+        -- intros s2 H HFS. unfold QFb, id_bound, ideal_bound in *. split; [lia|exact HFS].
+        -- intros l s2 Hl Hnd Hc2. split; [now split|]. unfold id_bound, ideal_bound in *. lia.
+Qed.
+
+Corollary id_ext_for_cc_correct fuel :
   on_done (id_ext_for_cc oracle thr fuel e F) (fun l => idl F l).
 Proof.
-  apply wpT_on_done. intros s.
-  apply (wp_conseq _ (fun _ => True) (fun _ => False) (fun _ => True)); [auto|intros s' []|auto|].
-  unfold id_ext_for_cc. cbv zeta. rewrite wp_bind, wp_new_solver, wp_bind.
-  apply id_in_all_spec; [apply cls_new|apply sb_new|].
-  intros [[in_all n_in_all] n_pref] s' (Hlen & Hcore & Hcnt & Hone) Hleft. cbn [fst snd] in *.
-  destruct (Nat.eqb n_in_all (length g0)) eqn:E1.
-  - apply Nat.eqb_eq in E1. rewrite wp_ret. apply (ideal_is_grounded in_all Hcore). congruence.
-  - apply Nat.eqb_neq in E1. destruct (Nat.eqb n_pref 1) eqn:E2.
-    + apply Nat.eqb_eq in E2. rewrite wp_ret. destruct (Hone E2 E1) as [Q [HQ HE]].
-      exact (ideal_is_single in_all Hcore Q HQ HE).
-    + eapply wp_mono; [|apply (id_maximal_allowed_spec in_all Hlen Hcore fuel s' Hleft)].
-      intros l _ [H _]. exact H.
+  intros s. pose proof (outcome_done _ _ _ _ _ _ (id_ext_for_cc_full fuel s)) as H.
+  destruct (id_ext_for_cc oracle thr fuel e F s); tauto.
 Qed.
 
 (* credulous acceptance under the ideal semantics: the status is membership of a listed argument
@@ -275,48 +312,76 @@ Qed.
 Definition id_cred_answer (la : list nat) (r : bool * option (list nat)) : Prop :=
   (fst r = true <-> cred ID F la) /\
   match r with
-  | (true, Some ext) => idl F ext /\ meets la ext = true
+  | (true, Some ext) => idl F ext /\ NoDup ext /\ meets la ext = true
   | (false, None) => True
   | _ => False
   end.
 
 Lemma id_result_answer la I :
-  idl F I -> id_cred_answer la (if meets la I then (true, Some I) else (false, None)).
+  idl F I -> NoDup I -> id_cred_answer la (if meets la I then (true, Some I) else (false, None)).
 Proof.
-  intros HI. unfold id_cred_answer. destruct (meets la I) eqn:Hm; cbn [fst]; (split; [split|]); auto.
+  intros HI Hnd. unfold id_cred_answer. destruct (meets la I) eqn:Hm; cbn [fst]; (split; [split|]); auto.
   - intros _. exists I. split; [exact HI|]. now apply meets_spec.
   - discriminate.
   - intros [S [HS [a [Ha HaS]]]]. exfalso.
     apply (proj1 (meets_false la I) Hm a Ha). apply (proj1 (idl_unique F S I Hwf HS HI a)). exact HaS.
 Qed.
 
-Theorem id_cred_for_cc_correct fuel la :
+Theorem id_cred_for_cc_full fuel la s :
+  outcome_ok (id_cred_for_cc oracle thr fuel e F la s) (calls s) id_bound fuel (id_cred_answer la).
+Proof.
+  apply wp_outcome. unfold id_cred_for_cc. cbv zeta. rewrite wp_bind, wp_new_solver, wp_bind.
+  change (calls s) with (calls (st_new s)).
+  apply (id_in_all_spec fuel (fuel < id_bound)); [apply cls_new|apply sb_new|unfold id_bound; lia| | |].
+  - intros s' H. unfold QAb, id_bound. lia.
+  - intros s' H HFS. unfold QFb, id_bound. split; [lia|exact HFS].
+  - intros [[in_all n_in_all] n_pref] s' (Hlen & Hcore & Hcnt & Hone) Hleft Hcl. cbn [fst snd] in *.
+    destruct (forallb (fun a => negb (nth_bool in_all a)) la) eqn:Enone.
+    + (* no listed argument is in every preferred extension *)
+      rewrite wp_ret. split; [|unfold id_bound; lia].
+      unfold id_cred_answer. cbn [fst]. split; [|exact I]. split; [discriminate|].
+      intros [S [HS [a [Ha HaS]]]]. exfalso.
+      pose proof (proj1 (idl_char F _ S Hwf Hcore) HS) as (_ & HSA & _).
+      apply HSA in HaS. apply (in_id_single in_all a Hlen) in HaS. destruct HaS as [_ Ht].
+      rewrite forallb_forall in Enone. specialize (Enone a Ha). rewrite Ht in Enone. discriminate.
+    + destruct (Nat.eqb n_in_all (length g0)) eqn:E1.
+      * apply Nat.eqb_eq in E1. rewrite wp_ret. split; [|unfold id_bound; lia].
+        apply id_result_answer; [|exact Hgrnd]. apply (ideal_is_grounded in_all Hcore). congruence.
+      * apply Nat.eqb_neq in E1. destruct (Nat.eqb n_pref 1) eqn:E2.
+        -- apply Nat.eqb_eq in E2. rewrite wp_ret. destruct (Hone E2 E1) as [Q [HQ HE]].
+           split; [|unfold id_bound; lia].
+           apply id_result_answer; [|apply id_single_NoDup]. exact (ideal_is_single in_all Hcore Q HQ HE).
+        -- rewrite wp_bind.
+           apply (id_maximal_allowed_spec in_all Hlen Hcore fuel (fuel < id_bound)); [exact Hleft| | | |].
+           ++ unfold id_bound, ideal_bound. lia.
+           ++ intros s2 H. unfold QAb, id_bound, ideal_bound in *. lia.
+           ++ intros s2 H HFS. unfold QFb, id_bound, ideal_bound in *. split; [lia|exact HFS].
+           ++ intros l s2 Hl Hnd Hc2. rewrite wp_ret. split; [now apply id_result_answer|].
+              unfold id_bound, ideal_bound in *. lia.
+Qed.
+
+Corollary id_cred_for_cc_correct fuel la :
   on_done (id_cred_for_cc oracle thr fuel e F la) (id_cred_answer la).
 Proof.
-  apply wpT_on_done. intros s.
-  apply (wp_conseq _ (fun _ => True) (fun _ => False) (fun _ => True)); [auto|intros s' []|auto|].
-  unfold id_cred_for_cc. cbv zeta. rewrite wp_bind, wp_new_solver, wp_bind.
-  apply id_in_all_spec; [apply cls_new|apply sb_new|].
-  intros [[in_all n_in_all] n_pref] s' (Hlen & Hcore & Hcnt & Hone) Hleft. cbn [fst snd] in *.
-  destruct (forallb (fun a => negb (nth_bool in_all a)) la) eqn:Enone.
-  - (* no listed argument is in every preferred extension *)
-    rewrite wp_ret. unfold id_cred_answer. cbn [fst]. split; [|exact I]. split; [discriminate|].
-    intros [S [HS [a [Ha HaS]]]]. exfalso.
-    pose proof (proj1 (idl_char F _ S Hwf Hcore) HS) as (_ & HSA & _).
-    apply HSA in HaS. apply (in_id_single in_all a Hlen) in HaS. destruct HaS as [_ Ht].
-    rewrite forallb_forall in Enone. specialize (Enone a Ha). rewrite Ht in Enone. discriminate.
-  - destruct (Nat.eqb n_in_all (length g0)) eqn:E1.
-    + apply Nat.eqb_eq in E1. rewrite wp_ret. apply id_result_answer.
-      apply (ideal_is_grounded in_all Hcore). congruence.
-    + apply Nat.eqb_neq in E1. destruct (Nat.eqb n_pref 1) eqn:E2.
-      * apply Nat.eqb_eq in E2. rewrite wp_ret. destruct (Hone E2 E1) as [Q [HQ HE]].
-        apply id_result_answer. exact (ideal_is_single in_all Hcore Q HQ HE).
-      * rewrite wp_bind.
-        eapply wp_mono; [|apply (id_maximal_allowed_spec in_all Hlen Hcore fuel s' Hleft)].
-        intros l s'' [H _]. rewrite wp_ret. now apply id_result_answer.
+  intros s. pose proof (outcome_done _ _ _ _ _ _ (id_cred_for_cc_full fuel la s)) as H.
+  destruct (id_cred_for_cc oracle thr fuel e F la s); tauto.
 Qed.
 
 End Ideal.
 
+(* the hypotheses are satisfiable *)
+Example ex_id_hyps :
+  let F := compact 4 [(0,1);(1,2);(2,1);(2,3)] in
+  compact_af F 4 /\ pr_enc AuxCo /\ gr_least F.
+Proof.
+  cbv zeta. split; [|split].
+  - split; [reflexivity|]. intros a b H. cbn in H.
+    repeat (destruct H as [H|H]; [injection H as <- <-; lia|]). destruct H.
+  - left. reflexivity.
+  - split; [apply grb_gr; vm_compute; reflexivity|vm_compute; repeat constructor; cbn; intuition lia].
+Qed.
+
+Print Assumptions id_ext_for_cc_full.
+Print Assumptions id_cred_for_cc_full.
 Print Assumptions id_ext_for_cc_correct.
 Print Assumptions id_cred_for_cc_correct.
